@@ -51,11 +51,10 @@ import (
 )
 
 const (
-	hostName  = "c05-origin.test"
-	authority = "c05-origin.test:443" // the CONNECT target = "the tunnel's authority"
-	marker    = "C05-HIJACKED-MARKER\n"
-	ack       = "C05-ACK\n"
-	ekmLabel  = "EXPORTER-verif-c05"
+	hostName = "c05-origin.test"
+	marker   = "C05-HIJACKED-MARKER\n"
+	ack      = "C05-ACK\n"
+	ekmLabel = "EXPORTER-verif-c05"
 
 	ioDeadline      = 12 * time.Second // generous per-I/O hang guard (liveness only)
 	historyDeadline = 40 * time.Second
@@ -65,6 +64,7 @@ var (
 	listeners = []string{"plain", "shaped", "transparent"}
 	inners    = []string{"tls", "plain"}
 	forms     = []string{"origin", "abs_http", "abs_https", "nohost"}
+	ports     = []int{443, 8443} // port of the tunnel authority: the https default and another one
 )
 
 // History is one enumerated scenario.
@@ -72,18 +72,33 @@ type History struct {
 	ID       int      `json:"id"`
 	Listener string   `json:"listener"`
 	Inner    string   `json:"inner"`
+	Port     int      `json:"port"`
 	Forms    []string `json:"forms"`  // target form of request 1..N
 	Hijack   string   `json:"hijack"` // none | req | res  (modifier of the LAST request)
 	Via      string   `json:"via"`    // conn | brw (which value returned by Hijack() the hijacker uses)
 }
 
 func (h History) String() string {
-	s := fmt.Sprintf("#%d listener=%s inner=%s forms=%s hijack=%s", h.ID, h.Listener, h.Inner, strings.Join(h.Forms, ","), h.Hijack)
+	s := fmt.Sprintf("#%d listener=%s inner=%s authority=%s forms=%s hijack=%s", h.ID, h.Listener, h.Inner, h.authority(), strings.Join(h.Forms, ","), h.Hijack)
 	if h.Hijack != "none" {
 		s += " via=" + h.Via
 	}
 	return s
 }
+
+// authority is the CONNECT target, "the tunnel's authority".
+func (h History) authority() string { return fmt.Sprintf("%s:%d", hostName, h.Port) }
+
+// hostGiven is how requests that do name a host name it (default port omitted, as clients do).
+func (h History) hostGiven() string {
+	if h.Port == 443 {
+		return hostName
+	}
+	return h.authority()
+}
+
+// hostOK: URL.Host denotes the tunnel authority (the default https port may be omitted).
+func (h History) hostOK(got string) bool { return got == h.authority() || got == h.hostGiven() }
 
 func (h History) entry() string {
 	if h.Listener == "transparent" {
@@ -104,17 +119,19 @@ func enumerate(maxN int) []History {
 					if l == "transparent" && in == "plain" {
 						continue // a TLS listener cannot be spoken to in cleartext: not a tunnel at all
 					}
-					dims := make([]int, n)
-					for i := range dims {
-						dims[i] = len(forms)
-					}
-					lib.Product(dims, func(idx []int) {
-						h := History{ID: len(out), Listener: l, Inner: in, Hijack: hk.pos, Via: hk.via}
-						for _, f := range idx {
-							h.Forms = append(h.Forms, forms[f])
+					for _, port := range ports {
+						dims := make([]int, n)
+						for i := range dims {
+							dims[i] = len(forms)
 						}
-						out = append(out, h)
-					})
+						lib.Product(dims, func(idx []int) {
+							h := History{ID: len(out), Listener: l, Inner: in, Port: port, Hijack: hk.pos, Via: hk.via}
+							for _, f := range idx {
+								h.Forms = append(h.Forms, forms[f])
+							}
+							out = append(out, h)
+						})
+					}
 				}
 			}
 		}
@@ -371,7 +388,12 @@ func seqOf(req *http.Request) int {
 	return n
 }
 
-func ekmOf(cs *tls.ConnectionState) string {
+func ekmOf(cs *tls.ConnectionState) (s string) {
+	defer func() {
+		if r := recover(); r != nil { // a ConnectionState that does not stem from a real handshake
+			s = fmt.Sprint("ekm-unavailable: ", r)
+		}
+	}()
 	b, err := cs.ExportKeyingMaterial(ekmLabel, nil, 16)
 	if err != nil {
 		return "ekm-error:" + err.Error()
@@ -490,7 +512,8 @@ func (m *recorder) doHijack(ctx *martian.Context) {
 
 // ---- running one history ---------------------------------------------------------------------------------------
 
-func requestBytes(form string, seq int) string {
+func requestBytes(h History, seq int) string {
+	form, hostName := h.Forms[seq-1], h.hostGiven()
 	x := fmt.Sprintf("X-C05-Seq: %d\r\n", seq)
 	switch form {
 	case "origin":
@@ -609,7 +632,7 @@ func runClient(e *env, h History, addr string, rec *recorder, out *Outcome, omu 
 	var stream net.Conn = raw
 
 	if h.Listener != "transparent" {
-		fmt.Fprintf(raw, "CONNECT %s HTTP/1.1\r\nHost: %s\r\nX-C05-Seq: 0\r\n\r\n", authority, authority)
+		fmt.Fprintf(raw, "CONNECT %s HTTP/1.1\r\nHost: %s\r\nX-C05-Seq: 0\r\n\r\n", h.authority(), h.authority())
 		br := bufio.NewReader(raw)
 		res, err := http.ReadResponse(br, &http.Request{Method: "CONNECT"})
 		if err != nil {
@@ -642,7 +665,7 @@ func runClient(e *env, h History, addr string, rec *recorder, out *Outcome, omu 
 	for i := 1; i <= n; i++ {
 		stream.SetDeadline(time.Now().Add(ioDeadline))
 		cr := ClientRes{Seq: i}
-		if _, err := io.WriteString(stream, requestBytes(h.Forms[i-1], i)); err != nil {
+		if _, err := io.WriteString(stream, requestBytes(h, i)); err != nil {
 			cr.Err = "write request: " + err.Error()
 			set(func() { out.Client = append(out.Client, cr) })
 			break
@@ -702,10 +725,8 @@ func reqAttrs(h History, i int) map[string]string {
 	if i == 1 {
 		cls = "first_request"
 	}
-	return map[string]string{"listener": h.Listener, "cls": cls, "form": h.Forms[i-1]}
+	return map[string]string{"listener": h.Listener, "port": strconv.Itoa(h.Port), "cls": cls, "form": h.Forms[i-1]}
 }
-
-func hostOK(got string) bool { return got == authority || got == hostName }
 
 func judge(o *Outcome, st *judgeStats) []V {
 	h := o.H
@@ -714,7 +735,7 @@ func judge(o *Outcome, st *judgeStats) []V {
 	add := func(symptom string, attrs map[string]string, format string, a ...interface{}) {
 		vs = append(vs, V{Entry: E, Symptom: symptom, Attrs: attrs, Desc: h.String() + ": " + fmt.Sprintf(format, a...), H: h, O: o})
 	}
-	hist := map[string]string{"listener": h.Listener}
+	hist := map[string]string{"listener": h.Listener, "port": strconv.Itoa(h.Port)}
 	check := func() { st.evals++ }
 
 	check()
@@ -796,7 +817,7 @@ func judge(o *Outcome, st *judgeStats) []V {
 			add("request_not_presented_to_modifiers", at, "request %d (%s) was sent but the request modifier never saw it; client: status=%d err=%q", i, form, cr.Status, cr.Err)
 			continue
 		}
-		st.obsKeys[fmt.Sprintf("%s|%s|%s|%s|scheme=%s|secure=%v|tls=%v|hostok=%v|res=%v", E, h.Listener, at["cls"], form, ob.Scheme, ob.Secure, ob.TLS, hostOK(ob.URLHost), ob.ResSeen)] = true
+		st.obsKeys[fmt.Sprintf("%s|%s|%s|%s|scheme=%s|secure=%v|tls=%v|hostok=%v|res=%v", E, h.Listener, at["cls"], form, ob.Scheme, ob.Secure, ob.TLS, h.hostOK(ob.URLHost), ob.ResSeen)] = true
 		check()
 		if c := count(i); c != 1 {
 			add("request_presented_more_than_once", at, "request %d seen %d times by the request modifier", i, c)
@@ -831,14 +852,14 @@ func judge(o *Outcome, st *judgeStats) []V {
 			// "the tunnel's authority as host when none is given"
 			check()
 			if form == "nohost" {
-				if E == "connect_tls" && !hostOK(ob.URLHost) {
+				if E == "connect_tls" && !h.hostOK(ob.URLHost) {
 					hostBad = true
-					add("url_host_not_tunnel_authority", at, "request %d has no Host header and an origin-form target inside the tunnel to %s, but the modifier sees URL.Host=%q (client then got status %d)", i, authority, ob.URLHost, cr.Status)
+					add("url_host_not_tunnel_authority", at, "request %d has no Host header and an origin-form target inside the tunnel to %s, but the modifier sees URL.Host=%q (client then got status %d)", i, h.authority(), ob.URLHost, cr.Status)
 				}
 				// transparent listener: there is no CONNECT and hence no tunnel authority; URL.Host is not judged.
-			} else if !hostOK(ob.URLHost) {
+			} else if !h.hostOK(ob.URLHost) {
 				hostBad = true
-				add("url_host_not_as_given", at, "request %d (%s) names host %s but the modifier sees URL.Host=%q", i, form, hostName, ob.URLHost)
+				add("url_host_not_as_given", at, "request %d (%s) names host %s but the modifier sees URL.Host=%q", i, form, h.hostGiven(), ob.URLHost)
 			}
 		} else {
 			// "Traffic inside a CONNECT tunnel that does not begin with a TLS handshake is handled as plain HTTP on an
@@ -902,8 +923,8 @@ func judge(o *Outcome, st *judgeStats) []V {
 		// not encrypted under that session's keys is a read error)
 		if !hijackHere {
 			check()
-			kind := "clear"
-			if tlsIn {
+			kind := "clear" // how the origin was reached for this request decides what it answered
+			if len(up) == 1 && up[0].TLS {
 				kind = "tls"
 			}
 			switch {
@@ -975,7 +996,7 @@ func judge(o *Outcome, st *judgeStats) []V {
 
 // attribute domains, used to turn (entry, symptom, set of failing scenario attributes) into a signature:
 // an attribute is mentioned in the signature only if the symptom does NOT occur for all of its values.
-var attrOrder = []string{"listener", "cls", "form", "pos", "via"}
+var attrOrder = []string{"listener", "port", "cls", "form", "pos", "via"}
 
 func attrDomain(entry, attr string) []string {
 	switch attr {
@@ -984,6 +1005,8 @@ func attrDomain(entry, attr string) []string {
 			return []string{"transparent"}
 		}
 		return []string{"plain", "shaped"}
+	case "port":
+		return []string{"443", "8443"}
 	case "cls":
 		return []string{"first_request", "later_request"}
 	case "form":
@@ -1068,13 +1091,26 @@ func workerMain(hs []History, shard, n int) {
 		b, _ := json.Marshal(l)
 		f.Write(append(b, '\n'))
 	}
+	only := -1
+	if v := os.Getenv("VERIF_C05_ONLY"); v != "" {
+		only, _ = strconv.Atoi(v)
+	}
 	for k := range hs {
-		if k < from || !mine(k, shard, n, lib.Seed()) {
+		if only >= 0 && k != only {
+			continue
+		}
+		if only < 0 && (k < from || !mine(k, shard, n, lib.Seed())) {
 			continue
 		}
 		id := k
 		put(line{Start: &id})
-		put(line{Outcome: runHistory(e, hs[k])})
+		o := runHistory(e, hs[k])
+		if only >= 0 {
+			// Attribution run: if a proxy goroutine is panicking, let it take the process down before the
+			// outcome is reported as a clean completion.
+			time.Sleep(500 * time.Millisecond)
+		}
+		put(line{Outcome: o})
 	}
 	f.Close()
 	os.Exit(0)
@@ -1112,6 +1148,33 @@ func tail(s string, n int) string {
 	return s
 }
 
+// crashText extracts the panic / fatal error part of a dead worker's output.
+func crashText(err error, out string) string {
+	for _, mark := range []string{"panic:", "fatal error:"} {
+		if i := strings.Index(out, mark); i >= 0 {
+			out = out[i:]
+			if len(out) > 1500 {
+				out = out[:1500] + "..."
+			}
+			return fmt.Sprintf("worker exit: %v; %s", err, strings.TrimSpace(out))
+		}
+	}
+	return fmt.Sprintf("worker exit: %v; output tail: %s", err, tail(out, 1500))
+}
+
+// runIsolated runs one history alone in a fresh process.
+func runIsolated(h History, file string) *Outcome {
+	os.Remove(file)
+	cmd := exec.Command(os.Args[0], os.Args[1:]...)
+	cmd.Env = append(os.Environ(), "VERIF_SHARD=0/1", "VERIF_SHARD_OUT="+file, "GOMAXPROCS=2", "VERIF_C05_ONLY="+strconv.Itoa(h.ID))
+	b, err := cmd.CombinedOutput()
+	got, _ := readShard(file)
+	if o, ok := got[h.ID]; ok && err == nil {
+		return o
+	}
+	return &Outcome{H: h, Crash: crashText(err, string(b))}
+}
+
 func rerunShard(shard, n, from int, file string) (string, error) {
 	cmd := exec.Command(os.Args[0], os.Args[1:]...)
 	cmd.Env = append(os.Environ(), fmt.Sprintf("VERIF_SHARD=%d/%d", shard, n), "VERIF_SHARD_OUT="+file, "GOMAXPROCS=2", "VERIF_C05_FROM="+strconv.Itoa(from))
@@ -1141,7 +1204,7 @@ func main() {
 	rep.Assumptions = []string{
 		"client, proxy and origin talk over real loopback TCP with the real crypto/tls; the origin is reached through Proxy.SetDial, every dialled address is mapped to the in-process origin",
 		"the proxy uses its own default http.Transport; only TLSClientConfig.RootCAs is set (to the harness origin's certificate)",
-		"'tunnel authority' = the CONNECT target " + authority + "; URL.Host equal to it or to the same host without the default https port is accepted",
+		"'tunnel authority' = the CONNECT target (" + hostName + ":443 and :8443 are enumerated); URL.Host equal to it, or to the bare host name when the port is the https default, is accepted",
 		"transparent-TLS listener: there is no CONNECT, so the no-Host clause (URL.Host = tunnel authority) is not judged there; all other clauses are",
 		"no-Host requests are HTTP/1.0 origin-form with Connection: keep-alive so that later requests can follow on the connection",
 		"hang deadlines (12 s per I/O, 40 s per history) are liveness guards only",
@@ -1156,48 +1219,88 @@ func main() {
 	os.RemoveAll(dir)
 	files, errs, outs := lib.RunShards(nshards, dir)
 
+	// Collect. A worker that died is resumed after the history it died in; because a panicking proxy goroutine
+	// closes the client connection (deferred) an instant before the process dies, the history that finished just
+	// before may be the real culprit: both are re-run alone in a fresh process, and that run is authoritative.
 	results := map[int]*Outcome{}
-	resumes := 0
+	var rmu sync.Mutex
+	var incomplete, engineErr string
+	var wg sync.WaitGroup
 	for s := 0; s < nshards; s++ {
-		werr, wout := errs[s], outs[s]
-		for {
-			got, started := readShard(files[s])
-			for id, o := range got {
-				results[id] = o
-			}
-			// first history of this shard that has no outcome
-			missing := -1
-			for k := range hs {
-				if mine(k, s, nshards, lib.Seed()) {
-					if _, ok := results[k]; !ok {
-						missing = k
-						break
+		wg.Add(1)
+		go func(s int) {
+			defer wg.Done()
+			werr, wout := errs[s], outs[s]
+			isolated := map[int]bool{}
+			for resumes := 0; ; resumes++ {
+				got, started := readShard(files[s])
+				missing, prev := -1, -1
+				rmu.Lock()
+				for id, o := range got {
+					if !isolated[id] {
+						results[id] = o
 					}
 				}
-			}
-			if missing < 0 {
-				break
-			}
-			wasStarted := false
-			for _, id := range started {
-				if id == missing {
-					wasStarted = true
+				for k := range hs {
+					if mine(k, s, nshards, lib.Seed()) {
+						if _, ok := results[k]; !ok {
+							missing = k
+							break
+						}
+						prev = k
+					}
 				}
+				rmu.Unlock()
+				if missing < 0 {
+					return
+				}
+				wasStarted := false
+				for _, id := range started {
+					if id == missing {
+						wasStarted = true
+					}
+				}
+				if !wasStarted {
+					rmu.Lock()
+					engineErr = fmt.Sprintf("worker %d exited (%v) before starting history %d; output:\n%s", s, werr, missing, tail(wout, 4000))
+					rmu.Unlock()
+					return
+				}
+				if resumes >= 150 {
+					rmu.Lock()
+					incomplete = "a worker shard died more than 150 times; its remaining histories were not run"
+					rmu.Unlock()
+					return
+				}
+				reproduced := false
+				for _, id := range []int{prev, missing} {
+					if id < 0 || isolated[id] {
+						continue
+					}
+					isolated[id] = true
+					o := runIsolated(hs[id], filepath.Join(dir, fmt.Sprintf("only-%d.json", id)))
+					if o.Crash != "" {
+						reproduced = true
+					}
+					rmu.Lock()
+					results[id] = o
+					rmu.Unlock()
+				}
+				if !reproduced {
+					rmu.Lock()
+					results[missing] = &Outcome{H: hs[missing], Crash: "worker died while running this history (not reproduced when re-run alone): " + crashText(werr, wout)}
+					rmu.Unlock()
+				}
+				wout, werr = rerunShard(s, nshards, missing+1, files[s])
 			}
-			if !wasStarted {
-				fmt.Fprintf(os.Stderr, "C05: worker %d exited (%v) before starting history %d; output:\n%s\n", s, werr, missing, tail(wout, 4000))
-				os.Exit(2)
-			}
-			// The worker died while running `missing`: attribute, then resume after it.
-			results[missing] = &Outcome{H: hs[missing], Crash: fmt.Sprintf("worker exit: %v; output tail: %s", werr, tail(wout, 1500))}
-			resumes++
-			if resumes > 200 {
-				rep.Incomplete = "more than 200 worker crashes; remaining histories of a shard not run"
-				break
-			}
-			wout, werr = rerunShard(s, nshards, missing+1, files[s])
-		}
+		}(s)
 	}
+	wg.Wait()
+	if engineErr != "" {
+		fmt.Fprintln(os.Stderr, "C05:", engineErr)
+		os.Exit(2)
+	}
+	rep.Incomplete = incomplete
 
 	// Judge.
 	st := &judgeStats{obsKeys: map[string]bool{}}
@@ -1259,9 +1362,9 @@ func main() {
 	rep.Coverage["histories_hung"] = hung
 	rep.Coverage["histories_crashed_worker"] = crashed
 	rep.Coverage["worker_processes"] = nshards
-	rep.Coverage["rule"] = "every history of {plain, trafficshape, transparent-TLS listener} x {TLS, plaintext inside the tunnel} x 1..N requests x {origin-form, absolute http://, absolute https://, HTTP/1.0 without Host}^N x {no hijack, hijack in request/response modifier of the last request via the net.Conn or the ReadWriter returned by Hijack} is run once through the real proxy; states = distinct per-request modifier views (entry, listener, first/later, form, scheme, secure, TLS state, host, response seen); transitions = modifier invocations; non-trivial = anything TestIntegrationMITM/TransparentMITM do not do: >=2 requests on the decrypted connection, or a non-origin-form first target, or a hijack"
+	rep.Coverage["rule"] = "every history of {plain, trafficshape, transparent-TLS listener} x {TLS, plaintext inside the tunnel} x tunnel authority port {443, 8443} x 1..N requests x {origin-form, absolute http://, absolute https://, HTTP/1.0 without Host}^N x {no hijack, hijack in request/response modifier of the last request via the net.Conn or the ReadWriter returned by Hijack} is run once through the real proxy; states = distinct per-request modifier views (entry, listener, first/later, form, scheme, secure, TLS state, host, response seen); transitions = modifier invocations; non-trivial = anything TestIntegrationMITM/TransparentMITM do not do: >=2 requests on the decrypted connection, or a non-origin-form first target, or a hijack"
 	rep.Coverage["exhaustive"] = rep.Incomplete == "" && executed == len(hs)
-	rep.Coverage["bounds"] = fmt.Sprintf("N<=%d requests per decrypted connection; 3 listener kinds; 2 tunnel contents (transparent: TLS only); 4 target forms per request; 5 hijack variants at the last request; one tunnel authority (%s)", maxN, authority)
+	rep.Coverage["bounds"] = fmt.Sprintf("N<=%d requests per decrypted connection; 3 listener kinds; 2 tunnel contents (transparent: TLS only); 4 target forms per request; 5 hijack variants at the last request; tunnel authority %s with ports %v", maxN, hostName, ports)
 	rep.Finish()
 }
 
